@@ -53,7 +53,9 @@ def _reach(proj, world, prestate):
     """reach the pre-state; returns the edits [(source, value)] to apply *after* the recovery: every source gets
     another value, so every target of the closure has to react"""
     s, alpha = _src(world)
-    others = [(o, a[1]) for o, a in world.sources.items() if o != s and o not in world.absent]
+    # (a source that switches a script's failure on is left alone: with it set the project is not "buildable")
+    flags = {sp.fail for vs in world.rules.values() for sp in vs if sp.fail}
+    others = [(o, a[1]) for o, a in world.sources.items() if o != s and o not in world.absent and o not in flags]
     if prestate == "first":
         return [(s, alpha[1])] + others
     if prestate == "do-removed":
@@ -210,7 +212,8 @@ def crash_job(args):
             # invocation has finished) and the harness waits until nothing of the session is left
             env = dict(proj.env, RV_KILL="%s:%s:p" % (pt["lid"].split(":", 1)[1], pt["k"]))
             r = e3.run_session(BUILD, proj.p, env, root, "crash", timeout=60, survivors_timeout=15)
-            if r["rc"] == 0:
+            fired = any(l.startswith("K ") for l in open(proj.trace).read().split("\n"))
+            if not fired:
                 raise MachineryError(f"parent-only script kill {pt['lid']}:{pt['k']} did not fire in world {world_name}/{prestate} "
                                      f"(rc={r['rc']}; stderr {r['err'][-300:]!r})")
         elif pt["call"] == "script-kill":
@@ -317,7 +320,8 @@ def crash_job(args):
 
 PRESTATES = {"chain": ("first", "incr", "rmtarget", "override-rm"), "csum-mid": ("first", "incr", "incr2", "rmtarget", "override-rm"),
              "default": ("first", "incr"), "takeover": ("first", "do-removed"), "chain-append": ("first", "incr"), "dynamic": ("first", "incr"),
-             "csum-append": ("first", "incr", "incr2"), "chain+log": ("first", "incr"), "csum-mid+log": ("incr2",)}
+             "csum-append": ("first", "incr", "incr2"), "chain+log": ("first", "incr"), "csum-mid+log": ("incr2",),
+             "tolerant": ("first", "incr"), "tolerant-csum": ("first", "incr", "incr2")}
 
 
 def plan(tier):
@@ -330,6 +334,8 @@ def plan(tier):
         c += [(w, ps, "sproc") for w in ("csum-mid", "chain-append") for ps in PRESTATES[w]]
         c += [(w, ps, "tree+q") for w in ("chain", "csum-mid") for ps in PRESTATES[w]]
         c += [("chain+log", ps, sc) for ps in PRESTATES["chain+log"] for sc in ("tree", "proc")]
+        # scripts that go on without a dependency whose redo-ifchange failed -- or was killed
+        c += [(w, ps, "sproc") for w in ("tolerant", "tolerant-csum") for ps in PRESTATES[w]]
         return c, True
     return [(w, ps, sc) for w in PRESTATES for ps in PRESTATES[w] for sc in ("proc", "tree", "script", "sproc", "tree+q")], False
 
